@@ -8,7 +8,8 @@
    C01 layer 4b). *)
 From RM Require Import Model.Decoders Model.Encode Model.CurveDist.
 From RM Require Model.DrvEnc Model.Curve.
-From RM Require Import Proofs.DecodedObjects Proofs.EncodeTotal Proofs.EncodeCompletes Proofs.DecodeTerminates.
+From RM Require Import Proofs.DecodedObjects Proofs.EncodeTotal Proofs.EncodeCompletes Proofs.DecodeTerminates
+     Proofs.DecodeTerminatesSegments Proofs.DecodeTerminatesSegLines.
 From RM Require Proofs.ThetaLoop.
 Open Scope Z_scope.
 
@@ -38,6 +39,37 @@ Section DecodeEncode.
         exists w, encode_tokens (DrvEnc.dist_real lm) (events_with chk fuel tf) bv = Panic w)).
   Proof.
     intros Hf Htf Hfuel. destruct (decode_beatmap_16 lm Hlm lines Hf) as (bv & Hb).
+    exists bv. split; [exact Hb|]. split.
+    - exact (encode_never_out_of_fuel lm chk fuel tf lines bv Hb Htf Hfuel).
+    - exact (encode_outcomes lm chk fuel tf lines bv Hb Htf Hfuel).
+  Qed.
+
+  (* per segment, on the state and on the input lines *)
+  Theorem decode_encode_seg_fits chk fuel tf lines :
+    Forall (fun h => obj_seg_fits_some h = true) (bm_parsed lines) ->
+    100000 * 2 ^ 25 + 1 < Z.of_nat tf -> 3 + 9000 * (100000 * 2 ^ 25 + 1) < Z.of_nat fuel ->
+    exists bv, decode_beatmap (dist_of_curve lm) lines = Done bv /\
+      encode_tokens (DrvEnc.dist_real lm) (events_with chk fuel tf) bv <> OutOfFuel /\
+      ((exists toks, encode_tokens (DrvEnc.dist_real lm) (events_with chk fuel tf) bv = Done toks) \/
+       (neg_dist_class lm bv = true /\
+        exists w, encode_tokens (DrvEnc.dist_real lm) (events_with chk fuel tf) bv = Panic w)).
+  Proof.
+    intros Hf Htf Hfuel. destruct (decode_beatmap_seg_fits lm Hlm lines Hf) as (bv & Hb).
+    exists bv. split; [exact Hb|]. split.
+    - exact (encode_never_out_of_fuel lm chk fuel tf lines bv Hb Htf Hfuel).
+    - exact (encode_outcomes lm chk fuel tf lines bv Hb Htf Hfuel).
+  Qed.
+
+  Theorem decode_encode_seg_lines chk fuel tf lines :
+    lines_seg_fit lines = true ->
+    100000 * 2 ^ 25 + 1 < Z.of_nat tf -> 3 + 9000 * (100000 * 2 ^ 25 + 1) < Z.of_nat fuel ->
+    exists bv, decode_beatmap (dist_of_curve lm) lines = Done bv /\
+      encode_tokens (DrvEnc.dist_real lm) (events_with chk fuel tf) bv <> OutOfFuel /\
+      ((exists toks, encode_tokens (DrvEnc.dist_real lm) (events_with chk fuel tf) bv = Done toks) \/
+       (neg_dist_class lm bv = true /\
+        exists w, encode_tokens (DrvEnc.dist_real lm) (events_with chk fuel tf) bv = Panic w)).
+  Proof.
+    intros Hf Htf Hfuel. destruct (decode_terminates_seg_lines lm Hlm lines Hf) as [_ (bv & Hb)].
     exists bv. split; [exact Hb|]. split.
     - exact (encode_never_out_of_fuel lm chk fuel tf lines bv Hb Htf Hfuel).
     - exact (encode_outcomes lm chk fuel tf lines bv Hb Htf Hfuel).
